@@ -341,11 +341,38 @@ type State struct {
 	mem map[string]string // memory name -> current SMT term
 	W   string            // allocation watermark (Int term)
 	A   string            // ghost allocation counter in bytes (Int term) for C06
+	inner map[string]innerRec // memory name -> last whole-inner-array write (read-over-write shortcut)
 	H   string            // ghost heap version: bumped by every write except to the types listed in `config heapver_ignore`
+}
+
+// innerRec remembers that memory `mem` (as term memTerm) was last produced by writing the
+// inner array `val` at object `base`: a read of that object's inner array can use val directly,
+// which keeps quantifier patterns over the array visible to E-matching.
+type innerRec struct{ memTerm, base, val string }
+
+func (s *State) noteInner(name, base, val string) {
+	if s.inner == nil {
+		s.inner = map[string]innerRec{}
+	}
+	s.inner[name] = innerRec{s.mem[name], base, val}
+}
+
+// innerOf returns the inner array of object base in elem-memory m.
+func innerOf(s *State, m MemRef, memTerm, base string) string {
+	if r, ok := s.inner[m.Name]; ok && r.memTerm == memTerm && r.base == base {
+		return r.val
+	}
+	return sel(memTerm, base)
 }
 
 func (s *State) clone() *State {
 	n := &State{mem: map[string]string{}, W: s.W, A: s.A, H: s.H}
+	if s.inner != nil {
+		n.inner = map[string]innerRec{}
+		for k, v := range s.inner {
+			n.inner[k] = v
+		}
+	}
 	for k, v := range s.mem {
 		n.mem[k] = v
 	}
